@@ -106,9 +106,17 @@ func prehistory(shard int) {
 			}
 		case 8:
 			z, _ := mk()
-			_, _ = losses.NewMSE().Compute(x, z)
-			_, _ = losses.NewBCE().Compute(x, z)
-			y, _ = losses.NewCE().Compute(x, z)
+			// the three losses in an order that differs from step to step (and from shard to shard)
+			for k, r := 0, next(3); k < 3; k++ {
+				switch (k + r) % 3 {
+				case 0:
+					_, _ = losses.NewMSE().Compute(x, z)
+				case 1:
+					_, _ = losses.NewBCE().Compute(x, z)
+				default:
+					y, _ = losses.NewCE().Compute(x, z)
+				}
+			}
 			_, _ = losses.NewBCE().Compute(nil, z)
 			acc := metrics.NewAccuracy()
 			_ = acc.Accumulate(x, z)
